@@ -66,6 +66,36 @@ def main(argv=None):
     broken = None
     try:
         mod.run(rep, a.tier)
+        if a.tier == "thorough":
+            # re-run the same rules under every extra configuration of the module
+            for cfg in getattr(mod, "THOROUGH_CONFIGS", []):
+                core.EXTRA = list(cfg)
+                for m_ in list(sys.modules.values()):
+                    if getattr(m_, "__name__", "").startswith("rules.") and hasattr(m_, "_cache"):
+                        m_._cache.clear()
+                sub = Report(prop)
+                try:
+                    mod.run(sub, "thorough-config")
+                finally:
+                    core.EXTRA = []
+                    for m_ in list(sys.modules.values()):
+                        if getattr(m_, "__name__", "").startswith("rules.") and hasattr(m_, "_cache"):
+                            m_._cache.clear()
+                tag = " [" + " ".join(cfg) + "]"
+                rep.obligations += sub.obligations
+                rep.discharged += sub.discharged
+                rep.sites += sub.sites
+                rep.tus |= set(t + tag for t in sub.tus)
+                rep.functions |= set(f + tag for f in sub.functions)
+                for r_, c_ in sub.instances.items():
+                    rep.instances[r_] += c_
+                rep.samples += [dict(s_, config=" ".join(cfg)) for s_ in sub.samples[:6]]
+                for v in sub.violations:
+                    if not any(o.rule == v.rule and o.fn == v.fn and o.key == v.key for o in rep.violations):
+                        v.key = v.key + tag
+                        v.msg = v.msg + " (configuration" + tag + ")"
+                        rep.violations.append(v)
+                rep.notes.append("configuration%s: %d rule instances evaluated, %d held" % (tag, sub.obligations, sub.discharged))
         floors = getattr(mod, "FLOORS", {})
         for rid, n in floors.items():
             # the floor guards against vacuous passes; a rule that already reports a violation is not vacuous
